@@ -42,8 +42,9 @@ LrefPool == {<<"/", "a">>, <<"/", "a", "/", "p:b">>, <<"..", "/", "a">>, <<"..",
              <<"..", "/", "a", "[", "p:b", "=", "current", "(", ")", "/", "..", "/", "a", "]", "/", "a">>,
              <<"/", "a", "[", "a", "=", "current", "(", ")", "/", "..", "/", "a", "]", "[", "p:b", "=", "current", "(", ")", "/", "..", "/", "a", "]", "/", "a">>}
 
-\* character classes, one representative each (the harness substitutes "~" and "\f")
-CharAlpha == <<"a", "d", "1", ".", "'", "\"", " ", ":", "*", "/", "(", ")", "[", "]", ",", "-", "=", "<", "!", "$", "@", "|", "~", "\f", "e">>
+\* character classes, one representative each (the harness substitutes the placeholders)
+\* "~" non-ASCII name character, "`" invalid UTF-8 byte 0xFF, "^" vertical tab, "{" NUL, "}" no-break space, "\f" form feed
+CharAlpha == <<"a", "d", "1", ".", "'", "\"", " ", ":", "*", "/", "(", ")", "[", "]", ",", "-", "=", "<", "!", "$", "@", "|", "~", "`", "e", "\f", "^", "{", "}", "\n", "%">>
 RECURSIVE Concat(_)
 Concat(s) == IF s = << >> THEN "" ELSE s[1] \o Concat(Tail(s))
 CharStrings(firstc, maxlen) ==
